@@ -13,6 +13,76 @@ class NotPoly(Exception):
     pass
 
 
+class NeedChoice(Exception):
+    """A two-way choice point (max/min of two polynomials) met during case analysis and not resolved yet."""
+    def __init__(self, key):
+        Exception.__init__(self, key)
+        self.key = key
+
+
+# Case analysis over max()/min(): `max(a, b)` is `a` in the case a - b >= 0 and `b` in the case b - a - 1 >= 0
+# (integers).  Active only inside with_cases(); elsewhere max/min stay outside the fragment (NotPoly).
+_CHOICES = None
+_CONDS = None
+
+
+def with_cases(fn, limit=16):
+    """Run fn() under every resolution of the max/min choice points it meets.
+    Returns [(conds, result)], conds = list of (poly Q, text) each meaning Q >= 0."""
+    global _CHOICES, _CONDS
+    out, stack = [], [{}]
+    while stack:
+        ch = stack.pop()
+        _CHOICES, _CONDS = ch, []
+        try:
+            r = fn()
+            out.append((list(_CONDS), r))
+        except NeedChoice as e:
+            stack.append({**ch, e.key: 1})
+            stack.append({**ch, e.key: 0})
+            if len(stack) + len(out) > limit:
+                raise Unsupported('too many max/min cases')
+        finally:
+            _CHOICES = _CONDS = None
+    return out
+
+
+_FLOORDIVS = {}     # atom name -> (P, Q) for every floordiv atom built (lets infeasible() reason about its sign)
+
+
+def nonneg(p, facts):
+    """Sound, incomplete: p >= 0 follows when p is a non-negative integer combination (coefficients 0..2) of the
+    fact polynomials (each >= 0) plus a non-negative constant."""
+    import itertools
+    for lam in itertools.product((0, 1, 2), repeat=len(facts)):
+        acc = {}
+        for l, f in zip(lam, facts):
+            if l:
+                acc = add(acc, mul(const(l), f))
+        rest = add(p, acc, -1)
+        if is_const(rest) and rest.get((), 0) >= 0:
+            return True
+    return False
+
+
+def infeasible(conds, facts):
+    """Sound, incomplete: a case is infeasible when one of its conditions Q >= 0 contradicts the facts, i.e.
+    -Q - 1 >= 0 follows from them.  floor(P/Q) >= 0 is added as a fact when P >= 0 and Q >= 1 follow."""
+    base = list(facts)
+    facts = list(facts)
+    for q, _t in conds:
+        for m in q:
+            for a in m:
+                if a in _FLOORDIVS:
+                    pp, qq = _FLOORDIVS[a]
+                    if nonneg(pp, base) and nonneg(add(qq, const(1), -1), base) and atom(a) not in facts:
+                        facts.append(atom(a))
+    for q, _t in conds:
+        if nonneg(add(mul(const(-1), q), const(1), -1), facts):
+            return True
+    return False
+
+
 def const(c):
     return {(): c} if c else {}
 
@@ -92,7 +162,9 @@ def floordiv(p, q):
                 else:
                     rest[m] = c
             p = rest
-    return add(atom(f'floordiv({text(p)}, {text(q)})'), extra)
+    name = f'floordiv({text(p)}, {text(q)})'
+    _FLOORDIVS[name] = (p, q)
+    return add(atom(name), extra)
 
 
 def of_expr(e, env):
@@ -126,6 +198,23 @@ def of_expr(e, env):
         if fn == 'len' and len(e.args) == 1:
             t = ' '.join(ast.unparse(e).split())
             return env[t] if t in env else atom(t)
+        if fn in ('max', 'min') and len(e.args) == 2 and not e.keywords and _CHOICES is not None:
+            a, b = of_expr(e.args[0], env), of_expr(e.args[1], env)
+            d = add(a, b, -1)
+            if is_const(d):
+                first = d.get((), 0) >= 0
+            else:
+                key = f'{text(a)} >= {text(b)}'
+                if key not in _CHOICES:
+                    raise NeedChoice(key)
+                first = _CHOICES[key] == 0
+                if first:
+                    _CONDS.append((d, f'{text(a)} >= {text(b)}'))
+                else:
+                    _CONDS.append((add(mul(const(-1), d), const(1), -1), f'{text(a)} < {text(b)}'))
+            if fn == 'max':
+                return a if first else b
+            return b if first else a
         raise NotPoly(ast.unparse(e))
     if isinstance(e, ast.Subscript):
         t = ' '.join(ast.unparse(e).split())
